@@ -98,20 +98,51 @@ def parsePriority (sid : Nat) : Bytes → Option Priority
 def extractPriorities (frames : List Frame) : List Priority :=
   (frames.filter (fun f => f.ty == tyPriority)).filterMap (fun f => parsePriority f.sid f.payload)
 
-/-- `decode_headers` followed by the `starts_with(':')` filter and `PseudoHeader::from`:
-a fresh decoder is applied to the *raw frame payload*; fields whose name or value is not UTF-8 are
-dropped. -/
-def pseudoOfBlock (H : Hpack) (payload : Bytes) : List Bytes :=
-  match (H.dec H.init payload).1 with
+/-- `decode_headers` followed by the `starts_with(':')` filter and `PseudoHeader::from`: a fresh
+decoder is applied to the assembled block; fields whose *name* is not UTF-8 are dropped. -/
+def pseudoOfBlock (H : Hpack) (block : Bytes) : List Bytes :=
+  match (H.dec H.init block).1 with
   | none => []
   | some hs =>
-    ((hs.filter (fun h => utf8Valid h.1 && utf8Valid h.2)).filter (fun h => h.1.head? == some colon)).map
+    ((hs.filter (fun h => utf8Valid h.1)).filter (fun h => h.1.head? == some colon)).map
       (fun h => pseudoToken h.1)
+
+/-- `http2_parser::header_block_fragment` -/
+def fragmentOf (f : Frame) : Option Bytes :=
+  let r1 : Option (Nat × Bytes) :=
+    if f.flags &&& 8 != 0 then (match f.payload with | pl :: r => some (pl.toNat, r) | [] => none)
+    else some (0, f.payload)
+  match r1 with
+  | none => none
+  | some (pad, p) =>
+    let r2 : Option Bytes := if f.flags &&& 0x20 != 0 then (if 5 ≤ p.length then some (p.drop 5) else none) else some p
+    match r2 with
+    | none => none
+    | some p2 => if pad ≤ p2.length then some (p2.take (p2.length - pad)) else none
+
+/-- the loop of `header_block` over the later frames of the same stream: CONTINUATION payloads up to
+END_HEADERS (or up to the first other frame, or the end) -/
+def contLoop : List Frame → Bytes
+  | [] => []
+  | f :: r =>
+    if f.ty != tyContinuation then []
+    else if f.flags &&& 4 != 0 then f.payload
+    else f.payload ++ contLoop r
+
+/-- `http2_parser::header_block(&frames[i..])` -/
+def headerBlockOf : List Frame → Option Bytes
+  | [] => none
+  | first :: rest =>
+    match fragmentOf first with
+    | none => none
+    | some frag =>
+      if first.flags &&& 4 != 0 then some frag
+      else some (frag ++ contLoop (rest.filter (fun f => f.sid == first.sid)))
 
 /-- `extract_pseudo_header_order` -/
 def extractPseudo (H : Hpack) (frames : List Frame) : List Bytes :=
-  match frames.find? (fun f => f.ty == tyHeaders && f.sid > 0) with
-  | some f => pseudoOfBlock H f.payload
+  match headerBlockOf (frames.dropWhile (fun f => !(f.ty == tyHeaders && f.sid > 0))) with
+  | some block => pseudoOfBlock H block
   | none => []
 
 /-- `extract_akamai_fingerprint` -/
@@ -133,12 +164,13 @@ structure Extractor where
   fingerprint : Option Fingerprint := none
   deriving Repr, Inhabited
 
-/-- `Http2FingerprintExtractor::add_bytes` (never `Err`: `parse_frames` never fails). -/
+/-- `Http2FingerprintExtractor::add_bytes` (never `Err`: `parse_frames` never fails). Every call
+parses all frames of the buffer (after the preface). -/
 def Extractor.addBytes (H : Hpack) (s : Extractor) (data : Bytes) : Extractor × Option Fingerprint :=
   if s.fingerprint.isSome then (s, none)
   else
     let buffer := s.buffer ++ data
-    let start := if s.parsedOffset = 0 ∧ hasPreface buffer then preface.length else s.parsedOffset
+    let start := if hasPreface buffer then preface.length else 0
     let frameData := buffer.drop start
     if frameData.length ≥ 9 then
       let frames := parseFrames frameData
